@@ -61,10 +61,10 @@ fn run_once(ch: &Ch, scenario: u32) -> ExecResult {
         let clock = ctx::ManualClock::new();
         let root = ctx::test_root(&clock);
         let q = VFetchQueue::default();
-        let a0 = sync::watch::channel(if scenario == 3 { range(9) } else { range(5) }).0;
+        let a0 = sync::watch::channel(if scenario == 3 { range(9) } else if scenario == 4 { range2(6, 9) } else { range(5) }).0;
         let a1 = sync::watch::channel(match scenario {
             2 => range(5),
-            3 => range2(6, 9), // pruned peer: does not have blocks below 6
+            3 | 4 => range2(6, 9), // pruned peer: does not have blocks below 6
             _ => range(9),
         })
         .0;
@@ -76,6 +76,13 @@ fn run_once(ch: &Ch, scenario: u32) -> ExecResult {
             g.avail = [9, 9];
             g.avail_lo = [0, 6];
         }
+        // scenario 4: nobody stores block 5 (both peers pruned it); its requester gives up (deadline) while the request
+        // is still queued: block 8, now the lowest outstanding one, must be handed to a peer that waits for work
+        if scenario == 4 {
+            let mut g = sh2.lock().unwrap();
+            g.avail = [9, 9];
+            g.avail_lo = [6, 6];
+        }
         let (q, a0, a1, sh, root, sch, clock) = (&q, &a0, &a1, &sh2, &root, &sch, &clock);
         let idle_ref = &idle;
         let fut = async move {
@@ -83,13 +90,13 @@ fn run_once(ch: &Ch, scenario: u32) -> ExecResult {
                 // requesters
                 let wanted: &[u64] = match scenario {
                     2 => &[5, 6],
-                    3 => &[5, 8],
+                    3 | 4 => &[5, 8],
                     _ => &[3, 5, 7],
                 };
                 for &n in wanted {
                     s.spawn(async move {
                         let c;
-                        let rctx = if n == 7 {
+                        let rctx = if n == 7 || (scenario == 4 && n == 5) {
                             c = ctx.with_timeout(time::Duration::seconds(10));
                             &c
                         } else {
@@ -159,6 +166,7 @@ fn run_once(ch: &Ch, scenario: u32) -> ExecResult {
                             }
                         }
                         match step {
+                            0 if scenario == 4 => {}
                             0 => {
                                 let hi = if scenario == 2 { 6 } else { 9 };
                                 a0.send_replace(range(hi));
@@ -227,7 +235,7 @@ fn run_once(ch: &Ch, scenario: u32) -> ExecResult {
     let fin = final_blocks.lock().unwrap().clone();
     let wanted: &[u64] = match scenario {
         2 => &[5, 6],
-        3 => &[5, 8],
+        3 | 4 => &[5, 8],
         _ => &[3, 5, 7],
     };
     if stuck.is_none() {
@@ -238,7 +246,7 @@ fn run_once(ch: &Ch, scenario: u32) -> ExecResult {
             if !ok && !canceled && !fin.contains(n) && !holding {
                 violation.get_or_insert(format!("request for block {n} was lost: it neither completed nor is it outstanding at the end; outstanding {fin:?}; events {log:?}"));
             }
-            if canceled && fin.contains(n) && *n == 7 {
+            if canceled && fin.contains(n) && (*n == 7 || (scenario == 4 && *n == 5)) {
                 violation.get_or_insert(format!("the cancelled request for block {n} is still in the queue; events {log:?}"));
             }
         }
@@ -278,8 +286,8 @@ pub fn run(args: &Args) -> Report {
     let mut stats = vec![];
     let mut capped = false;
     let mut fails = 0;
-    for sc in [3u32, 1, 2] {
-        let cfg = ExploreCfg::new(&format!("fetch-queue[scenario {sc}]"), bound, budget.saturating_sub(t0.elapsed()) / if sc == 3 { 3 } else { 3 - sc });
+    for sc in [4u32, 3, 1, 2] {
+        let cfg = ExploreCfg::new(&format!("fetch-queue[scenario {sc}]"), bound, budget.saturating_sub(t0.elapsed()) / match sc { 4 => 6, 3 => 3, _ => 3 - sc });
         let st = explore(&cfg, |ch| run_once(ch, sc));
         execs += st.execs;
         points += st.choice_points;
@@ -306,6 +314,7 @@ pub fn run(args: &Args) -> Report {
             {"scenario": 1, "case": "requests for blocks 3,5,7 (7 with a deadline), peer 0 announces 0..5 then 0..9, peer 1 announces 0..9; every accepted call succeeds / fails / disconnects by environment choice"},
             {"scenario": 2, "case": "requests 5 and 6, both peers announce 0..5, peer 0 later 0..6"},
             {"scenario": 3, "case": "requests 5 and 8, peer 0 announces 0..9, peer 1 has pruned its history and announces 6..9: a failed call for 5 is re-queued while peer 1 is about to take 8"},
+            {"scenario": 4, "case": "requests 5 (with a deadline) and 8, both peers have pruned their history and announce 6..9: the request for 5 is given up while still queued, 8 must then be handed to a waiting peer"},
             {"scenario": "extreme ranges", "case": "one peer announcing {first, last} over {0,1,2,2^63-1,2^64-2,2^64-1} (PreGenesis and FinalV2 ends), one wanted block from the same set: accepted iff first <= n <= last"},
         ],
         "rule": "a state is one complete execution (schedule + environment answers) of the driver around the real fetch::Queue; all executions within the deviation bound; distinct = distinct event logs",
